@@ -1,6 +1,8 @@
 import Blots.Model.Json
+import Blots.Model.JsonText
 import Blots.Model.Data
 import Blots.Lemmas.Json
+import Blots.Lemmas.JsonText
 /-
   C06 — Data survives output → JSON → input unchanged.
 
@@ -10,11 +12,17 @@ import Blots.Lemmas.Json
   (`Json.norm`: serde_json is built without `preserve_order`, so object members are sorted
   by key and a duplicate key keeps its last value).
 
-  ASSUMPTION (not proved here, validated by the harness on every run): the JSON TEXT
-  layer — `serde_json::to_string` followed by `serde_json::from_str` is the identity on
-  canonical trees (strings code-point exact, numbers `parse (print x) = x`).  The number
-  half currently FAILS on the real code (serde_json without `float_roundtrip` reads some
-  printed doubles back one ulp off): known finding `c06.json-number-roundtrip`.
+  The JSON TEXT layer is modelled too (`Blots/Model/JsonText.lean`): `jsonWrite` is
+  `serde_json::to_string` on a tree of `f64` numbers (ryu's number format, serde_json's
+  string escapes), `jsonRead` is `serde_json::from_str::<Value>` as a document tree (RFC
+  8259 with serde_json's recursion limit of 128; numbers by correct rounding: the crate is
+  built with `float_roundtrip`).  `text_roundtrip`: reading a written tree gives the tree
+  back, for all strings, all finite doubles, any nesting below the recursion limit; hence
+  `value_text_roundtrip`: value → tree → TEXT → tree → value is `.==` the original.
+  ASSUMPTION (validated by the harness on every run, `c06.model.json-text`): the two real
+  functions agree with `jsonWrite` / `jsonRead` (character for character; accept/reject
+  and tree).  FINDING: the recursion limit makes the property fail on the real code for
+  values nested 127 levels or deeper (`deep_nesting_is_written_but_not_read`).
 
   `pf : ParseFn` ("the string parses as a lambda") and `pb : ParseBody` are the two facts
   about the Blots parser the JSON layer consults; every theorem holds for all of them.
@@ -177,5 +185,123 @@ theorem duplicate_keys_last_wins (k : String) (ms : List (String × Json)) :
 
 example : jeq (.obj [("b", .num F64.one), ("a", .null), ("b", .str "x")])
     (.obj [("a", .null), ("b", .str "x")]) = true := by decide
+
+/-! #### the JSON text layer: tree → text → tree -/
+
+open Blots.JsonText
+
+/-- ryu's text of every finite double — whichever of its five layouts (`1.0`, `12.34`,
+    `0.00001234`, `1e21`, `1.234e-6`) applies — denotes, under correct rounding, exactly
+    that double (so does `-0.0`); and the reader reads it back -/
+theorem number_text_roundtrip (x : F64) (hf : x.isFinite = true) :
+    F64.parseDec (String.ofList (ryuChars x)) = some x ∧ jsonRead (jsonWrite (.num x)) = some (.num x) :=
+  ⟨parseDec_ryu x hf, read_write_with 128 (.num x) (by simpa [Json.finite] using hf) (by simp [Json.depth])⟩
+
+/-- every string — any sequence of Unicode scalar values: quotes, backslashes, control
+    characters, U+007F, non-ASCII, astral — is read back character for character -/
+theorem string_text_roundtrip (s : String) : jsonRead (jsonWrite (.str s)) = some (.str s) :=
+  read_write_with 128 (.str s) rfl (by simp [Json.depth])
+
+/-- THE TEXT LAYER INVERTS ON TREES: every tree of finite numbers nested less than 128
+    deep (serde_json's recursion limit) is read back from its written text as the same
+    tree: member order, duplicate keys, strings and numbers exactly -/
+theorem text_roundtrip (j : Json) (hf : j.finite = true) (hd : j.depth < 128) :
+    jsonRead (jsonWrite j) = some j :=
+  read_write_with 128 j hf hd
+
+/-- … and the depth bound is only the reader's recursion limit: with a limit above the
+    depth of the tree the text of ANY tree of finite numbers is read back -/
+theorem text_roundtrip_any_depth (j : Json) (hf : j.finite = true) :
+    jsonReadWith (j.depth + 1) (jsonWrite j) = some j :=
+  read_write_with (j.depth + 1) j hf (Nat.lt_succ_self _)
+
+/-- the reader on EVERY JSON number literal `-? int frac? exp?` (what a user may type):
+    the correct rounding of its exact value `± digits × 10^(exponent − #fraction digits)`;
+    out of range (rounds to ±inf) is an error -/
+theorem number_literal_read_correctly_rounded (neg : Bool) (ip fp : List Char) (dot : Bool)
+    (ex : List Char) (ev : Int) (rest : List Char)
+    (hip : ∀ c ∈ ip, F64.isDigit c = true) (hlead : numLeadOk ip = true)
+    (hfp : ∀ c ∈ fp, F64.isDigit c = true) (hdot1 : dot = false → fp = []) (hdot2 : dot = true → fp ≠ [])
+    (hex : F64.IsExpText (400 + ip.length + fp.length) ex ev) (hrest : F64.HeadSat NumEnd rest) :
+    jsonReadNumber ((if neg then ['-'] else []) ++ (ip ++ F64.fracText dot fp ++ ex) ++ rest) =
+      (if (F64.decVal neg (F64.digitsVal (ip ++ fp)) (ev - Int.ofNat fp.length)).isFinite
+       then some (.num (F64.decVal neg (F64.digitsVal (ip ++ fp)) (ev - Int.ofNat fp.length)), rest)
+       else none) :=
+  readNumber_lit neg ip fp dot ex ev rest hip hlead hfp hdot1 hdot2 hex hrest
+
+/-- a tree with a string of quote, backslash, newline, U+0001, "é", an astral character; -0.0,
+    1e21, 5e-324, f64::MAX; empty and nested containers; awkward keys -/
+def exTree : Json :=
+  .obj [("k\"", .arr [.str "q\"b\\n\nc\x01é😀", .num F64.negZero, .num (F64.ofNatBits 0x444B1AE4D6E2EF50),
+      .num (F64.ofNatBits 1), .num (F64.ofNatBits 0x7FEFFFFFFFFFFFFF), .null, .bool true, .arr [], .obj []]),
+    ("", .obj [("é", .num F64.one)])]
+
+example : exTree.finite = true ∧ exTree.depth = 3 := by decide
+example : exTree.chars =
+    "{\"k\\\"\":[\"q\\\"b\\\\n\\nc\\u0001é😀\",-0.0,1e21,5e-324,1.7976931348623157e308,null,true,[],{}],\"\":{\"é\":1.0}}".toList := by
+  decide +kernel
+example : jsonRead (jsonWrite exTree) = some exTree := text_roundtrip exTree (by decide) (by decide)
+example : jsonRead (jsonWrite (.num F64.negZero)) = some (.num F64.negZero) :=
+  (number_text_roundtrip _ (by decide)).2
+example : ryuChars (F64.ofNatBits 1) = "5e-324".toList ∧ ryuChars F64.negZero = "-0.0".toList ∧
+    ryuChars (F64.ofNatBits 0x3E60000000000000) = "2.9802322387695312e-8".toList := by decide +kernel
+-- the reader on texts a user may type: white space, escapes, a surrogate pair, number forms
+example : (jsonRead " [ 1E5 , -0 , 1.0e-3 ] ").isSome = true ∧ (jsonRead "\"\\ud83d\\ude00\\/\"").isSome = true ∧
+    (jsonRead "01").isSome = false ∧ (jsonRead "[1,]").isSome = false ∧ (jsonRead "\"\\ud83d\"").isSome = false ∧
+    (jsonRead "1e999").isSome = false ∧ (jsonRead "{\"a\":1,\"a\":2}").isSome = true := by decide +kernel
+
+/-- arrays nested `n + 1` deep -/
+def nestArr : Nat → Json
+  | 0 => .arr []
+  | n + 1 => .arr [nestArr n]
+
+/-- THE DEPTH HYPOTHESIS IS NEEDED (a defect of the real code with respect to "at any
+    nesting depth"): a list nested 128 deep is written (`[[[…]]]`) but its text is refused by
+    the reader — serde_json's recursion limit — while 127 levels are read back -/
+theorem deep_nesting_is_written_but_not_read :
+    (nestArr 127).finite = true ∧ (nestArr 127).depth = 128 ∧
+      jsonRead (jsonWrite (nestArr 127)) = none ∧ jsonRead (jsonWrite (nestArr 126)) = some (nestArr 126) := by
+  refine ⟨by decide +kernel, by decide +kernel, ?_, text_roundtrip _ (by decide +kernel) (by decide +kernel)⟩
+  have h : (jsonReadValue (2 * (nestArr 127).chars.length + 2) 128 (nestArr 127).chars).isSome = false := by
+    decide +kernel
+  unfold jsonRead jsonReadWith jsonWrite
+  rw [String.toList_ofList]
+  cases hr : jsonReadValue (2 * (nestArr 127).chars.length + 2) 128 (nestArr 127).chars with
+  | none => rfl
+  | some p => rw [hr] at h; cases h
+
+/-! #### the whole chain: value → tree → text → tree → value -/
+
+/-- Any data value whose numbers are finite, that contains no function-shaped record and
+    is nested less than 128 deep is written (`from_value`, `to_json`,
+    `serde_json::to_string`) to a TEXT that is read back (`serde_json::from_str`,
+    `from_json`, `to_value`) as a value `.==` to the original. -/
+theorem value_text_roundtrip (pf : ParseFn) (pb : ParseBody) (v : Value) (hd : isData v = true)
+    (sv : SV) (hsv : fromValue v = .ok sv) (hf : sv.finite = true) (hn : sv.noFn pf = true)
+    (hdepth : sv.depth < 128) :
+    ∃ t w, writeText v = .ok t ∧ readText pf pb t = .ok w ∧ veq w v = true := by
+  obtain ⟨j, w, h1, h2, h3⟩ := data_roundtrip pf pb v hd sv hsv hf hn
+  have hj : j = toJson sv := by
+    simp only [writeJson, hsv, Outcome.ok.injEq] at h1; exact h1.symm
+  subst hj
+  refine ⟨jsonWrite (toJson sv), w, ?_, ?_, h3⟩
+  · simp only [writeText, h1]
+  · have ht := text_roundtrip (toJson sv) (finite_of_canonical _ (toJson_canonical sv))
+      (Nat.lt_of_le_of_lt (toJson_depth_le sv) hdepth)
+    simp only [readText, ht, h2]
+
+/-- the written text is canonical JSON text of the tree: reading it and writing again
+    gives the same text (output of one program piped through another is stable) -/
+theorem rewrite_is_identity (j : Json) (hf : j.finite = true) (hd : j.depth < 128) :
+    (jsonRead (jsonWrite j)).map jsonWrite = some (jsonWrite j) := by
+  rw [text_roundtrip j hf hd]; rfl
+
+example : isData (.record [("k", .list [.num F64.negZero, .str "é\"\\\n\x01😀"]), ("", .null)]) = true := by decide
+example : ∀ pf : ParseFn, ∃ t w,
+    writeText (.record [("k", .list [.num F64.negZero, .str "é\"\n\x01😀"]), ("", .null)]) = .ok t ∧
+    readText pf (fun _ => none) t = .ok w ∧
+    veq w (.record [("k", .list [.num F64.negZero, .str "é\"\n\x01😀"]), ("", .null)]) = true := by
+  intro pf
+  exact value_text_roundtrip pf _ _ (by decide) _ rfl (by decide) rfl (by decide)
 
 end Blots.C06
